@@ -73,6 +73,8 @@ HAND = [
     ("path-short", RS(r(L("p"), W("q", "path"), L("e")), r(L("p"), W("q", "path"), L("e/"), W("t")), r(L("px"))), False),
     ("re-nested", RS(r(L("k/"), W("v", "re", "a(b(c)?)?")), r(L("k/"), W("v", "re", "a(b(c)?)?"), L("/z")), r(L("k/ab"))), False),
     ("split-wild", RS(r(L("i/new")), r(L("i/nex")), r(L("i/"), W("id")), r(L("i/"), W("id"), L("/s"))), False),
+    # a path-filtered wildcard, literal text, then a wildcard in the ':name' flavour (one rule mixing syntax flavours)
+    ("path-wild", RS(r(W("p", "path"), L("-"), W("v")), r(L("a-b")), r(W("p", "path"), L("-"), W("v"), L("/z"))), False),
     ("float", RS(r(L("v/"), W("f", "float")), r(L("v/"), W("f", "float"), L("/x")), r(L("v/1")), r(L("v/1.")),), True),
 ]
 
